@@ -110,7 +110,9 @@ def check(run):
         C01.alias(R)
     R.rule('C05.inflated', 'a compressed text reaches the strict decode as the peer sent it: the inflater is configured from '
                            'the negotiated server window / takeover flag, fed every fragment and the trailer', 10)
+    from . import C02 as _C02
     with R.as_rule('C05.inflated'):
+        _C02.nosnapshot(R)       # the decompressor installed while feed() is suspended at the handshake is the one used
         C06.wiring(R)
         C06.tail(R)
     from . import C17 as _C17
